@@ -228,6 +228,29 @@ def run_job(job):
                         continue
                     items.append(f"check_np_bounds {qlit(float(rl))} {qlit(float(rh))} {qlit(corr)} {zlit(b[BASECOL[e]] + 1)} {zlit(aggfam.whole(r[f'results_{e}']))} {zlit(lo_v)} {zlit(hi_v)}")
                 checks.append(f"all_true {llit(items)}")
+                # the correction that was actually applied, read back from the reported bounds of the outstanding units whose floor does not
+                # bind (each bound pins it to +-0.5 vote): it must be the calibrated one -- a smaller one leaves the calibration share at or
+                # below the level, a larger one is not the smallest score that exceeds it
+                c_lo_end, c_hi_end = -float("inf"), float("inf")
+                for uid, rl, rh in zip(h["nonrep_ids"], non_lo, non_hi):
+                    r = byid[uid]
+                    last = b_last = base[uid][BASECOL[e]] + 1
+                    lo_v, hi_v, res_v = aggfam.whole(r[f"lower_{a}_{e}"]), aggfam.whole(r[f"upper_{a}_{e}"]), aggfam.whole(r[f"results_{e}"])
+                    if lo_v is None or hi_v is None or res_v is None or b_last <= 0:
+                        continue
+                    if lo_v > res_v:
+                        c_lo_end = max(c_lo_end, float(rl) - (lo_v + 0.5 - last) / last)
+                        c_hi_end = min(c_hi_end, float(rl) - (lo_v - 0.5 - last) / last)
+                    if hi_v > res_v:
+                        c_lo_end = max(c_lo_end, (hi_v - 0.5 - last) / last - float(rh))
+                        c_hi_end = min(c_hi_end, (hi_v + 0.5 - last) / last - float(rh))
+                tol_c = 1e-9 * max(1.0, abs(corr))
+                if c_lo_end <= c_hi_end and (corr < c_lo_end - tol_c or corr > c_hi_end + tol_c) and not out["s"]:
+                    c_app = c_hi_end if corr > c_hi_end else c_lo_end
+                    share_app = sum(w for lb, ub, w in zip(cp["lb"], cp["ub"], cp["weights"]) if max(lb, ub) <= c_app) / W
+                    out["s"].append({"what": f"{e}@{a}: the reported bounds of the outstanding units were widened by a correction in [{c_lo_end}, {c_hi_end}], the calibrated "
+                                             f"correction of this estimand and level is {corr}; with the applied one the weighted share of calibration units inside their "
+                                             f"widened interval is {share_app} (level alpha(1+1/n) = {cp['q']})", "kind": "applied-correction"})
             out["exprs"].append(f"let sw := {sw} in {llit(checks)}")
             out["labels"].append([f"{e}@{a}|scores", f"{e}@{a}|weighted-correction", f"{e}@{a}|correction", f"{e}@{a}|unit-bounds"])
     out["sample"] = {"seed": seed, "estimands": p["estimands"], "levels": alphas, "robust": bool(p["model_parameters"].get("robust")), "calibration_sizes": out["ncal"]}
